@@ -4,8 +4,10 @@
    bytes; those bytes are the serialisation the schema defines for the value, and a TL decoder of
    the same schema reads the value back.  Statements only. *)
 From Coq Require Import ZArith NArith List.
+From Coq Require Import Lia.
 From MTV Require Import Base.Bytes Base.Outcome TL.Types TL.Codec TL.Typing TL.TLText TL.Match TL.Spec
-  TL.RoundTrip TL.SpecProofs Crypto.Envelope Crypto.EnvelopeProofs Props.C03.
+  TL.RoundTrip TL.SpecProofs TL.NPPost Crypto.Envelope Crypto.EnvelopeProofs Props.C03
+  Transport.Framing Transport.FramingProofs Transport.TrDelivery.
 Import ListNotations.
 Open Scope N_scope.
 
@@ -37,3 +39,107 @@ Proof.
   exact (roundtrip_unknown U inflate Hp tid fs body Hw He).
 Qed.
 Print Assumptions request_reaches_a_conformant_server.
+
+(* ---------------------------------------------------------------------------------------------
+   The other direction: what a conformant server sends reaches the client's decoder.
+   A server built from the same schema marshals the values v_1..v_n, seals each for the client
+   (any salt / session / msg_id of server parity / seq_no, any admissible padding), frames the
+   packets in the connection's transport mode and writes them; TCP hands the bytes to the client in
+   ANY segmentation.  Then transport.ReadMsg returns exactly the n packets (none is taken for an
+   error code) and then end-of-stream (C08 model); each packet is opened to the fields and the body
+   that went in (C03/C04 model); each body decodes to the value the server marshalled (C01 model). *)
+Record response := {
+  r_salt : N; r_sid : N; r_msgid : N; r_seq : N; r_pad : bytes;
+  r_tid : N; r_fs : list gval; r_body : bytes }.
+
+Definition response_ok (U : universe) (r : response) : Prop :=
+  r_salt r < 2 ^ 64 /\ r_sid r < 2 ^ 64 /\ r_msgid r < 2 ^ 64 /\ r_seq r < 2 ^ 32 /\
+  server_parity (r_msgid r) = true /\ pad_ok (r_body r) (r_pad r) = true /\
+  N.of_nat (length (r_body r)) < 2 ^ 25 /\
+  wt U (TIface 0) (VObj (r_tid r) (r_fs r)) = true /\ enc U (VObj (r_tid r) (r_fs r)) = Ok (r_body r).
+
+Definition sealed sha1 ige_e key (r : response) : bytes :=
+  seal_server sha1 ige_e key (r_salt r) (r_sid r) (r_msgid r) (r_seq r) (r_body r) (r_pad r).
+
+Lemma sealed_length sha1 ige_e key r :
+  sha1_20 sha1 -> ige_keeps_length ige_e -> pad_ok (r_body r) (r_pad r) = true ->
+  length (sealed sha1 ige_e key r) = (56 + length (r_body r) + length (r_pad r))%nat.
+Proof.
+  intros H1 H2 Hpad. unfold sealed, seal_server, spec_seal.
+  set (plain := le64 (r_salt r) ++ le64 (r_sid r) ++ le64 (r_msgid r) ++ le32 (r_seq r)
+                ++ le32 (N.of_nat (length (r_body r))) ++ r_body r).
+  pose proof (kiv_spec_lengths sha1 H1 (dir_x false) key (spec_msg_key sha1 plain)) as [_ Hiv].
+  destruct (kiv_spec sha1 (dir_x false) key (spec_msg_key sha1 plain)) as [k iv]. cbn [snd] in Hiv.
+  assert (Hpl : length plain = (32 + length (r_body r))%nat).
+  { unfold plain. rewrite !app_length, !le64_length, !le32_length. lia. }
+  unfold pad_ok in Hpad. apply andb_prop in Hpad as [_ Hal]. apply PeanoNat.Nat.eqb_eq in Hal.
+  rewrite !app_length, (spec_key_id_is sha1 H1), (auth_key_id_length sha1 H1),
+    (spec_msg_key_is sha1 H1), (msg_key_length sha1 H1).
+  rewrite H2; [rewrite app_length, Hpl; lia|exact Hiv|rewrite app_length, Hpl; exact Hal].
+Qed.
+
+Theorem response_reaches_the_client :
+  forall (U : universe) inflate sha1 ige_e ige_d v key (rs : list response) chunks,
+  pseudo_ok U = true ->
+  sha1_20 sha1 -> ige_keeps_length ige_e -> ige_inverts ige_e ige_d ->
+  (136 <= length key)%nat ->
+  Forall (response_ok U) rs ->
+  concat chunks = concat (map (frame v) (map (sealed sha1 ige_e key) rs)) ->
+  (* the transport hands over exactly the sealed packets, in order, then end of stream *)
+  tr_stream v chunks = Some (map TData (map (sealed sha1 ige_e key) rs), EEof) /\
+  (* and each of them is opened and decoded to what the server put in *)
+  Forall (fun r =>
+    exists m, open_client sha1 ige_d key (sealed sha1 ige_e key r) = Ok m /\
+      fields_of m = (r_salt r, r_sid r, r_msgid r, r_seq r, r_body r) /\
+      exists f0, forall f, (f0 <= f)%nat ->
+        decode_unknown U inflate f [] (e_body m) = DOk (norm U (VObj (r_tid r) (r_fs r)))) rs.
+Proof.
+  intros U inflate sha1 ige_e ige_d v key rs chunks Hp H1 H2 H3 Hk Hrs Hc. split.
+  - apply tr_delivery; [| |exact Hc].
+    + apply Forall_forall. intros pkt Hin. apply in_map_iff in Hin as [r [<- Hr]].
+      rewrite Forall_forall in Hrs. destruct (Hrs r Hr) as (_ & _ & _ & _ & _ & Hpad & Hb & _).
+      pose proof (sealed_length sha1 ige_e key r H1 H2 Hpad) as HL.
+      unfold pad_ok in Hpad. apply andb_prop in Hpad as [Hlt Hal].
+      apply PeanoNat.Nat.ltb_lt in Hlt. apply PeanoNat.Nat.eqb_eq in Hal.
+      assert (H16 : exists q, (32 + length (r_body r) + length (r_pad r) = 16 * q)%nat).
+      { exists ((32 + length (r_body r) + length (r_pad r)) / 16)%nat.
+        pose proof (PeanoNat.Nat.div_mod (32 + length (r_body r) + length (r_pad r)) 16 ltac:(lia)). lia. }
+      destruct H16 as [q Hq].
+      change (2 ^ 25) with 33554432 in Hb.
+      destruct v; cbn [carriable]; unfold blen; rewrite HL.
+      * replace (56 + length (r_body r) + length (r_pad r))%nat with (4 * (4 * q + 6))%nat by lia.
+        rewrite Nat2N.inj_mul. change (N.of_nat 4) with 4.
+        rewrite N.mul_comm, N.mod_mul by lia. rewrite N.div_mul by lia. split; [reflexivity|lia].
+      * lia.
+    + apply Forall_forall. intros pkt Hin. apply in_map_iff in Hin as [r [<- Hr]].
+      rewrite Forall_forall in Hrs. destruct (Hrs r Hr) as (_ & _ & _ & _ & _ & Hpad & _).
+      unfold blen. rewrite (sealed_length sha1 ige_e key r H1 H2 Hpad). lia.
+  - apply Forall_forall. intros r Hr. rewrite Forall_forall in Hrs.
+    destruct (Hrs r Hr) as (Hsalt & Hsid & Hmid & Hseq & Hpar & Hpad & Hb & Hw & He).
+    assert (Hb31 : N.of_nat (length (r_body r)) < 2 ^ 31).
+    { eapply N.lt_trans; [exact Hb|reflexivity]. }
+    destruct (C03_client_opens_server sha1 ige_e ige_d H1 H2 H3 key (r_salt r) (r_sid r) (r_msgid r) (r_seq r)
+                (r_body r) (r_pad r) Hk Hsalt Hsid Hmid Hseq Hb31 Hpar Hpad) as [m [Hopen [Hf _]]].
+    exists m. split; [exact Hopen|]. split; [exact Hf|].
+    assert (Hbody : e_body m = r_body r). { unfold fields_of in Hf. congruence. }
+    rewrite Hbody. exact (roundtrip_unknown U inflate Hp (r_tid r) (r_fs r) (r_body r) Hw He).
+Qed.
+Print Assumptions response_reaches_the_client.
+
+(* the premises are satisfiable: a one-constructor universe  c#64 a:int s:string v:Vector<long> = T *)
+Definition cxU : universe := {|
+  u_structs := [ {| s_crc := Some 100; s_flagidx := None;
+                    s_fields := [ {| f_ty := TI32; f_tag := TagNone |}; {| f_ty := TStr; f_tag := TagNone |};
+                                  {| f_ty := TVec TI64; f_tag := TagNone |} ];
+                    s_impls := [0%N] |} ];
+  u_enum_impls := [];
+  u_reg := [(100%N, RStruct 0)];
+  u_true := 7; u_false := 8; u_null := 9 |}.
+Definition cx_body : bytes :=
+  [100; 0; 0; 0;  7; 0; 0; 0;  3; 97; 98; 99;  21; 196; 181; 28;  1; 0; 0; 0;  5; 0; 0; 0; 0; 0; 0; 0].
+Definition cx_resp : response :=
+  {| r_salt := 5; r_sid := 6; r_msgid := 4294967297; r_seq := 3; r_pad := [1; 2; 3; 4];
+     r_tid := 0; r_fs := [VInt 7; VStr [97; 98; 99]; VVec false [VLong 5]]; r_body := cx_body |}.
+Example response_ok_instance : pseudo_ok cxU = true /\ response_ok cxU cx_resp.
+Proof. split; [vm_compute; reflexivity|]. unfold response_ok, cx_resp. cbn [r_salt r_sid r_msgid r_seq r_pad r_tid r_fs r_body].
+  repeat split; vm_compute; reflexivity. Qed.
